@@ -226,7 +226,7 @@ func instrumentFile(p *packages.Package, f *ast.File) bool {
 			if d.Recv != nil && len(d.Recv.List) > 0 {
 				name = types.ExprString(d.Recv.List[0].Type) + "." + name
 			}
-			in := &instr{p: p, fn: name}
+			in := &instr{p: p, fn: name, fnPos: d.Pos(), fnEnd: d.End()}
 			in.block(d.Body)
 			changed = true
 		case *ast.GenDecl:
@@ -254,6 +254,8 @@ type instr struct {
 	tmp     int
 
 	keepRange bool
+
+	fnPos, fnEnd token.Pos // extent of the function (declaration or literal) being instrumented
 }
 
 func (in *instr) yield(pos token.Pos) ast.Stmt {
@@ -389,7 +391,7 @@ func (in *instr) exprs(n ast.Node) ast.Node {
 					}
 				}
 			}
-			sub := &instr{p: in.p, fn: in.fn + ".func", noYield: in.noYield}
+			sub := &instr{p: in.p, fn: in.fn + ".func", noYield: in.noYield, fnPos: x.Pos(), fnEnd: x.End()}
 			sub.block(x.Body)
 			in.used = in.used || sub.used || !in.noYield
 			return false
@@ -546,10 +548,134 @@ func (in *instr) stmt(s ast.Stmt) ast.Stmt {
 		return in.goStmt(x)
 	case *ast.DeferStmt:
 		x.Call = in.exprs(x.Call).(*ast.CallExpr)
+	case *ast.AssignStmt:
+		s2 := in.exprs(s).(ast.Stmt)
+		if !in.noYield {
+			if a, ok := s2.(*ast.AssignStmt); ok {
+				if split := in.splitRMW(a); split != nil {
+					return split
+				}
+			}
+		}
+		return s2
+	case *ast.IncDecStmt:
+		s2 := in.exprs(s).(ast.Stmt)
+		if !in.noYield {
+			if a, ok := s2.(*ast.IncDecStmt); ok && in.shared(a.X) && !hasCall(a.X) {
+				op := token.ADD
+				if a.Tok == token.DEC {
+					op = token.SUB
+				}
+				return in.rmw(a.X, &ast.BinaryExpr{X: a.X, Op: op, Y: &ast.BasicLit{Kind: token.INT, Value: "1"}}, a.Pos())
+			}
+		}
+		return s2
 	default:
 		return in.exprs(s).(ast.Stmt)
 	}
 	return s
+}
+
+// shared reports whether e denotes a location other goroutines may reach: a field, an element or pointee of
+// something shared, a package-level variable, or a variable captured from an enclosing function.
+func (in *instr) shared(e ast.Expr) bool {
+	switch x := e.(type) {
+	case *ast.ParenExpr:
+		return in.shared(x.X)
+	case *ast.SelectorExpr:
+		if _, _, isPkg := in.pkgFunc(x); isPkg {
+			return true // pkg.Var
+		}
+		return true
+	case *ast.StarExpr:
+		return true
+	case *ast.IndexExpr:
+		return in.shared(x.X)
+	case *ast.Ident:
+		obj, ok := in.p.TypesInfo.Uses[x].(*types.Var)
+		if !ok {
+			return false
+		}
+		if obj.Parent() == in.p.Types.Scope() {
+			return true
+		}
+		return obj.Pos() < in.fnPos || obj.Pos() > in.fnEnd
+	}
+	return false
+}
+
+func hasCall(e ast.Expr) bool {
+	found := false
+	ast.Inspect(e, func(n ast.Node) bool {
+		if _, ok := n.(*ast.CallExpr); ok {
+			found = true
+		}
+		return !found
+	})
+	return found
+}
+
+// mentions reports whether expression e contains the expression target (compared by printed form).
+func mentions(e ast.Expr, target string) bool {
+	found := false
+	ast.Inspect(e, func(n ast.Node) bool {
+		if x, ok := n.(ast.Expr); ok && types.ExprString(x) == target {
+			found = true
+		}
+		return !found
+	})
+	return found
+}
+
+// splitRMW: `x = f(x)` and `x op= y` on a shared location become
+//
+//	{ zzt := f(x); zzsimhook.Yield(site); x = zzt }
+//
+// so that a lost update between the read and the write of one statement is a reachable schedule.
+func (in *instr) splitRMW(a *ast.AssignStmt) ast.Stmt {
+	if len(a.Lhs) != 1 || len(a.Rhs) != 1 || a.Tok == token.DEFINE {
+		return nil
+	}
+	lhs := a.Lhs[0]
+	if isBlank(lhs) || !in.shared(lhs) || hasCall(lhs) {
+		return nil
+	}
+	if tv, ok := in.p.TypesInfo.Types[a.Rhs[0]]; ok {
+		if _, isTuple := tv.Type.(*types.Tuple); isTuple {
+			return nil
+		}
+		if tv.IsNil() || tv.Value != nil {
+			return nil // a constant store reads nothing
+		}
+	}
+	var rhs ast.Expr
+	switch a.Tok {
+	case token.ASSIGN:
+		if !mentions(a.Rhs[0], types.ExprString(lhs)) {
+			return nil
+		}
+		rhs = a.Rhs[0]
+	case token.ADD_ASSIGN, token.SUB_ASSIGN, token.MUL_ASSIGN, token.QUO_ASSIGN, token.REM_ASSIGN,
+		token.AND_ASSIGN, token.OR_ASSIGN, token.XOR_ASSIGN, token.SHL_ASSIGN, token.SHR_ASSIGN, token.AND_NOT_ASSIGN:
+		op := map[token.Token]token.Token{token.ADD_ASSIGN: token.ADD, token.SUB_ASSIGN: token.SUB, token.MUL_ASSIGN: token.MUL,
+			token.QUO_ASSIGN: token.QUO, token.REM_ASSIGN: token.REM, token.AND_ASSIGN: token.AND, token.OR_ASSIGN: token.OR,
+			token.XOR_ASSIGN: token.XOR, token.SHL_ASSIGN: token.SHL, token.SHR_ASSIGN: token.SHR, token.AND_NOT_ASSIGN: token.AND_NOT}[a.Tok]
+		rhs = &ast.BinaryExpr{X: lhs, Op: op, Y: &ast.ParenExpr{X: a.Rhs[0]}}
+	default:
+		return nil
+	}
+	return in.rmw(lhs, rhs, a.Pos())
+}
+
+func (in *instr) rmw(lhs, rhs ast.Expr, pos token.Pos) ast.Stmt {
+	in.used = true
+	in.tmp++
+	t := ast.NewIdent("zzt" + strconv.Itoa(in.tmp))
+	return &ast.BlockStmt{List: []ast.Stmt{
+		&ast.AssignStmt{Lhs: []ast.Expr{t}, Tok: token.DEFINE, Rhs: []ast.Expr{rhs}},
+		in.yield(pos),
+		&ast.AssignStmt{Lhs: []ast.Expr{lhs}, Tok: token.ASSIGN, Rhs: []ast.Expr{t}},
+	}}
 }
 
 // goStmt: go f(a, b) -> { zzf, zza0, zza1 := f, a, b; zzsimhook.Go(func() { zzf(zza0, zza1) }) }
